@@ -532,7 +532,7 @@ pub struct E2eCase {
 
 fn gen_e2e(g: &mut Gen) -> E2eCase {
     let pc = gen_random(g);
-    let test = g.pick(&["-name", "-name", "-iname", "-path", "-ipath", "-wholename", "-lname", "-ilname"]).to_string();
+    let test = g.pick(&["-name", "-name", "-iname", "-path", "-ipath", "-wholename", "-iwholename", "-lname", "-ilname"]).to_string();
     let mut names: Vec<String> = vec![];
     let mut targets: Vec<String> = vec![];
     for s in &pc.subjects {
@@ -680,7 +680,7 @@ fn lit(s: &str) -> String {
     o
 }
 
-const SUBJ_TESTS: &[&str] = &["-name", "-iname", "-path", "-ipath", "-lname", "-ilname"];
+const SUBJ_TESTS: &[&str] = &["-name", "-iname", "-path", "-ipath", "-wholename", "-iwholename", "-lname", "-ilname"];
 
 fn gen_subj(g: &mut Gen) -> SubjCase {
     SubjCase { root: g.pick(ROOTS).to_string(), follow: g.pick(&[FollowMode::P, FollowMode::H, FollowMode::L]), test: g.pick(SUBJ_TESTS).to_string(), maxdepth: g.below(4) as u8, target: g.below(1 << 16) as u32, source: g.below(7) as u8, shape: g.below(8) as u8 }
